@@ -1268,6 +1268,52 @@ fn verifier_obs<F: VF, S: Stark<F, 2> + Copy>(
                     .key("stark-verifier:accepts-proof-without-quotient-commitment"),
             );
         }
+        // shape validation proper (values irrelevant): every single option / length change of the
+        // STARK-specific parts is rejected by validate_proof_shape
+        {
+            let config = stark_config();
+            let ok0 = starky::verif_hooks::validate_proof_shape::<F, F::Cfg, S, 2>(stark, &base.proof, &base.pis, &config).is_ok();
+            let mut goals = vec![A::Bool(ok0)];
+            let mut not_rejected: Vec<&str> = vec![];
+            let mut muts: Vec<(&str, Box<dyn Fn(&mut StarkProof<F, F::Cfg, 2>, &mut Vec<F>) -> bool>)> = vec![];
+            muts.push(("openings.quotient_polys := None", Box::new(|p, _| { let had = p.openings.quotient_polys.is_some(); p.openings.quotient_polys = None; had })));
+            muts.push(("openings.quotient_polys pop", Box::new(|p, _| p.openings.quotient_polys.as_mut().map_or(false, |v| v.pop().is_some()))));
+            muts.push(("openings.quotient_polys dup", Box::new(|p, _| p.openings.quotient_polys.as_mut().map_or(false, |v| { let x = v[0]; v.push(x); true }))));
+            muts.push(("quotient_polys_cap := None", Box::new(|p, _| { let had = p.quotient_polys_cap.is_some(); p.quotient_polys_cap = None; had })));
+            muts.push(("quotient_polys_cap pop", Box::new(|p, _| p.quotient_polys_cap.as_mut().map_or(false, |c| c.0.pop().is_some()))));
+            muts.push(("trace_cap pop", Box::new(|p, _| p.trace_cap.0.pop().is_some())));
+            muts.push(("trace_cap dup", Box::new(|p, _| { let x = p.trace_cap.0[0]; p.trace_cap.0.push(x); true })));
+            muts.push(("openings.local_values pop", Box::new(|p, _| p.openings.local_values.pop().is_some())));
+            muts.push(("openings.local_values dup", Box::new(|p, _| { let x = p.openings.local_values[0]; p.openings.local_values.push(x); true })));
+            muts.push(("openings.next_values pop", Box::new(|p, _| p.openings.next_values.pop().is_some())));
+            muts.push(("openings.next_values dup", Box::new(|p, _| { let x = p.openings.next_values[0]; p.openings.next_values.push(x); true })));
+            muts.push(("openings.auxiliary_polys := None", Box::new(|p, _| { let had = p.openings.auxiliary_polys.is_some(); p.openings.auxiliary_polys = None; had })));
+            muts.push(("openings.auxiliary_polys pop", Box::new(|p, _| p.openings.auxiliary_polys.as_mut().map_or(false, |v| v.pop().is_some()))));
+            muts.push(("openings.auxiliary_polys_next pop", Box::new(|p, _| p.openings.auxiliary_polys_next.as_mut().map_or(false, |v| v.pop().is_some()))));
+            muts.push(("auxiliary_polys_cap := None", Box::new(|p, _| { let had = p.auxiliary_polys_cap.is_some(); p.auxiliary_polys_cap = None; had })));
+            muts.push(("public_inputs pop", Box::new(|_, pi| pi.pop().is_some())));
+            muts.push(("public_inputs dup", Box::new(|_, pi| { pi.push(F::ZERO); true })));
+            let mut n = 0;
+            for (name, f) in &muts {
+                let mut p = base.proof.clone();
+                let mut pi = base.pis.clone();
+                if !f(&mut p, &mut pi) {
+                    continue;
+                }
+                n += 1;
+                let rejected = starky::verif_hooks::validate_proof_shape::<F, F::Cfg, S, 2>(stark, &p, &pi, &config).is_err();
+                if !rejected {
+                    not_rejected.push(name);
+                }
+                goals.push(A::Bool(rejected));
+            }
+            ctx.add(
+                Ob::new(format!("{idp}.shape.validate"), F_VERIFY, format!("{bounds}; {n} single option / length changes; structure is concrete"))
+                    .sample(format!("validate_proof_shape: Ok on the well-shaped proof, Err after each single change; not rejected: {not_rejected:?}"))
+                    .goals(goals)
+                    .key("stark-shape-validation:accepts-wrong-shape"),
+            );
+        }
         let delta = F::var("delta");
         let idx = base.query_indices[0];
         let cap_entry = idx >> (DEGREE_BITS + 1 - 1);
